@@ -40,6 +40,7 @@ def run(ctx):
   # a local read on a path that has not bound it raises UnboundLocalError instead of producing the result (analysis shared with C18)
   from . import c18 as _c18
   n_def = _c18.rule_defined(ctx, "R-C13-DEFINED", "C13")
+  n_att = _c18.rule_attrs(ctx, "R-C13-ATTRS", "C13")
   ctx.expect("R-C13-DEFINED", 8, "functions of random_test_suite")
   ctx.expect("R-C13-SEARCH", 3, "lattice, multiplier, offset of FindBiasImpl")
   ctx.expect("R-C13-HOLDOUT", 1, "FindBiasImpl")
